@@ -147,6 +147,46 @@ LawScale(b, s, AX)     == (~IsEmpty(b) /\ \A i \in Ax(b) : s[i] >= 0) => IsTight
 \* xfmBounds: the hull of the corner images contains the image of every lattice point of the box (convexity)
 LawXfm(m, b, AX)       == ~IsEmpty(b) => LET h == Hull(XfmImages(m, CornerPts(b)), 3) IN \A q \in XfmImages(m, Pts(b, AX)) : ContainsPt(h, q)
 
+\* Scaling and translation of boxes WITHOUT points.  The headers define both component-wise on the bounds
+\* (range * s = [lower * s, upper * s], range + v = [lower + v, upper + v]; the only overloads are range * T, T * range,
+\* range + T, T + range with T the bound type - there is no operator-, no compound form and no box * scalar for vector
+\* boxes).  ScaleB / TranslateB extend Scale / Translate to the sentinel bounds of the default-constructed empty box:
+\* +-INF times a positive factor and +-INF plus anything stay +-INF.  A positive rational factor n/den is applied to
+\* bounds whose product is divisible (ScaleQ).  What is NOT constrained: negative factors (they swap the order of the
+\* bounds: a non-empty box gets inverted bounds, an inverted one regular bounds - the definition contradicts the set
+\* reading either way), and a zero factor on a box without points (float: inf * 0 = NaN; int: the definition gives the
+\* point box [0, 0]); for the integer default empty box only the factor 1 and the translation 0 are evaluated, every other
+\* one overflows INT_MAX / INT_MIN.  A zero factor on a NON-empty box is part of the ordinary Scale cases (it collapses
+\* to the point 0).
+IsSentinel(x)      == x = INF \/ x = -INF
+MulB(x, n, den)    == IF IsSentinel(x) THEN x ELSE (x * n) \div den          \* n > 0, den > 0, den divides x * n
+AddB(x, v)         == IF IsSentinel(x) THEN x ELSE x + v
+ScaleQ(b, n, den)  == [lo |-> [i \in Ax(b) |-> MulB(b.lo[i], n[i], den)], hi |-> [i \in Ax(b) |-> MulB(b.hi[i], n[i], den)]]
+ScaleB(b, s)       == ScaleQ(b, s, 1)
+TranslateB(b, v)   == [lo |-> [i \in Ax(b) |-> AddB(b.lo[i], v[i])], hi |-> [i \in Ax(b) |-> AddB(b.hi[i], v[i])]]
+Divisible(b, n, den) == \A i \in Ax(b) : (IsSentinel(b.lo[i]) \/ (b.lo[i] * n[i]) % den = 0) /\ (IsSentinel(b.hi[i]) \/ (b.hi[i] * n[i]) % den = 0)
+Positive(s)        == \A i \in DOMAIN s : s[i] > 0
+PointBox(p)        == [lo |-> p, hi |-> p]
+\* a box without points stays without points, contains no point, and (default empty box) stays the identity of extend
+StaysEmpty(b, r, AXW, PS) ==
+  /\ IsEmpty(r)
+  /\ Pts(r, AXW) = {}
+  /\ \A p \in PS : ~ContainsPt(r, p)
+  /\ (IsCanonicalEmpty(b) => (IsCanonicalEmpty(r) /\ \A p \in PS : ExtendPt(r, p) = PointBox(p)))
+LawScaleEmpty(b, n, den, AXW, PS)  == (IsEmpty(b) /\ Positive(n) /\ Divisible(b, n, den)) => StaysEmpty(b, ScaleQ(b, n, den), AXW, PS)
+LawTranslateEmpty(b, v, AXW, PS)   == IsEmpty(b) => StaysEmpty(b, TranslateB(b, v), AXW, PS)
+\* if two boxes have no common point, neither have their scaled / translated images, and the scaled / translated
+\* (inverted) intersection is still without points; disjoint() of the images agrees (proper operands)
+LawScalePair(a, b, n, den) ==
+  (Positive(n) /\ Divisible(a, n, den) /\ Divisible(b, n, den) /\ Divisible(Intersection(a, b), n, den)) =>
+     /\ IsEmpty(Intersection(ScaleQ(a, n, den), ScaleQ(b, n, den))) = IsEmpty(Intersection(a, b))
+     /\ IsEmpty(ScaleQ(Intersection(a, b), n, den)) = IsEmpty(Intersection(a, b))
+     /\ ((Proper(a) /\ Proper(b)) => Disjoint(ScaleQ(a, n, den), ScaleQ(b, n, den)) = Disjoint(a, b))
+LawTranslatePair(a, b, v) ==
+     /\ IsEmpty(Intersection(TranslateB(a, v), TranslateB(b, v))) = IsEmpty(Intersection(a, b))
+     /\ IsEmpty(TranslateB(Intersection(a, b), v)) = IsEmpty(Intersection(a, b))
+     /\ ((Proper(a) /\ Proper(b)) => Disjoint(TranslateB(a, v), TranslateB(b, v)) = Disjoint(a, b))
+
 \* Order isomorphism: contains / extend / clamp / intersectionOf / disjoint / touchingOrOverlapping / empty only COMPARE
 \* coordinates, so they commute with every strictly increasing map F of the coordinates (the sentinel +-INF is fixed).
 \* This is what lets the drivers re-use the lattice expectations for boxes whose coordinates are F(k): the
